@@ -500,8 +500,11 @@ def flip(t):
 
 def quick_pairs(s):
     """boundary-chosen argument type pairs for summation type s: same type, sign-flipped twin, widest mixed pair,
-    narrowest mixed pair (forces promotion to int), 32-bit mixed pair (int vs unsigned: conversion to unsigned)"""
-    cand = [(s, s), (flip(s), s), (BY["u64"], BY["i64"]), (BY["i8"], BY["u8"]), (BY["u32"], BY["i32"])]
+    narrowest mixed pair (forces promotion to int), 32-bit mixed pair (int vs unsigned: conversion to unsigned),
+    all-unsigned pair with a 64-bit operand (AllUnsigned overload, sum wider than S)"""
+    cand = [(s, s), (flip(s), s), (BY["u64"], BY["i64"]), (BY["i8"], BY["u8"]), (BY["u32"], BY["i32"]),
+            # both unsigned with one operand wider than S: the AllUnsigned overload must range-check the result
+            (BY["u%d" % s.bits], BY["u64"])]
     out = []
     for c in cand:
         if c not in out:
@@ -669,15 +672,18 @@ def main():
         label = '"%s<%s>"' % (macro, ",".join(t.tag for t in tys))
         line = "CHK_%s(%d, %s)" % (macro, i, ", ".join(t.tag for t in tys))
         # every failing assertion costs the solver one more call on the whole batch: the must-fail twin negates the
-        # postconditions of the first tuple of each section only, reachability is asserted for the first two
+        # postconditions of the first tuple of each section only, reachability is asserted for the same tuple
         if k == 1:
             line = "TWIN_ON " + line + " TWIN_OFF"
-        if k <= 2:
+        if k == 1:
             line += " RCH_A(%d, %s)" % (i, label)
             if macro == "LESS" or neg:
                 line += " RCH_B(%d, %s)" % (i, label)
             if macro != "LESS" and ovf:
                 line += " RCH_C(%d, %s)" % (i, label)
+        # the twin and reach variants of a target only need the tuples that carry their assertions
+        if k > 1:
+            line = "#if !defined(TWIN) && !defined(REACH)\n" + line + "\n#endif"
         out.append(line)
     out.append("#endif")
     with open(os.path.join(BDIR, "sm_checks.inc"), "w") as f:
